@@ -135,10 +135,17 @@ type Path struct {
 	isInitPath bool
 	top        *frame
 	initDepth  int
+	crcApps    []crcApp
 	loopBound  int // harness-set loop bound (verifLoopBound), 0 = the engine default
 	budgetInit bool
 	budget     int
 	spec       bool
+}
+
+type crcApp struct {
+	name string
+	args []*Term
+	res  *Term
 }
 
 type obsRec struct {
